@@ -2359,15 +2359,17 @@ impl PeerConnection {
             }
 
             // The runner task has finished but the watch state wasn't
-            // Connected/Failed/Closed yet (the handshake can return Ok after
-            // setting Closed, or exit via feeder/close without a final state).
-            // Wait for a state transition instead of re-polling the completed
-            // JoinHandle, which would panic.
+            // Connected/Failed/Closed (checked above): it left via `close()` or
+            // because its packet feeder went away while still handshaking, and
+            // leaves no final state behind in that case. Nobody will ever
+            // finish this handshake, so waiting for a state transition here
+            // would park the connection task - and the strong reference our
+            // caller holds - forever (a `close()` during the handshake leaked
+            // the whole connection whenever this branch won the `select!`).
             if dtls_runner_done {
-                if state_rx.changed().await.is_err() {
-                    break;
-                }
-                continue;
+                return Err(RtcError::Internal(
+                    "DTLS runner stopped before completing the handshake".into(),
+                ));
             }
 
             tokio::select! {
